@@ -13,7 +13,10 @@ RULE = ('sequences of 1-4 batches sent to one reject_epochs coroutine; per epoch
         'random integer-valued samples; thresholds constant or a callable returning a new value per batch (incl. 0 and negative); '
         'plain ndarray and PipelineData batches (distinct metadata ids per epoch, s0, fs, channel label), empty batches, all-accepted '
         'and all-rejected batches; malformed input: 1-D/2-D/4-D plain, multichannel, un-epoched annotated (then further batches to '
-        'the dead coroutine). Non-trivial: at least one epoch rejected or an input refused. Distinct = distinct cases.')
+        'the dead coroutine). Audit additions: status_cb None, valid_target as plain function / callable object / bound send of a coroutine, '
+        'threshold as float / int / NumPy float64 / int64 / float32 and half-integer, batches of int64 / int32 / int16 / float32 dtype, all-zero '
+        'epochs, values around 1e9, empty batches of every kind, falsy / tuple channel labels, metadata dicts with nested heterogeneous '
+        'values, integer fs and NumPy s0; after every call the caller overwrites its batch and metadata list. Non-trivial: at least one epoch rejected or an input refused. Distinct = distinct cases.')
 TRUSTED = ['harness/C17.py (batch generator; canonicalisation of forwarded arrays, metadata ids and the status mask)',
            'NumPy max/abs/ptp/boolean-mask indexing as modelled in coq/Reject/Model.v and coq/PData/Model.v (exercised by the correspondence, not proved)']
 ASSUMPTIONS = ['sample values and thresholds are integer-valued floats, so the comparison with the threshold is exact',
@@ -24,40 +27,95 @@ EXC = {'IndexError': 'EIndex', 'ValueError': 'EValue', 'NotImplementedError': 'E
        'KeyError': 'ETypeKey', 'UnboundLocalError': 'EUnbound'}
 
 
+MTAGS = [0, '', None, ('A', 1), 2.5, 'x', False, (0,)]
+LABS = {70: 70, -1: None, 71: 0, 72: '', 73: ('A', 0), 74: False, 75: 'ch'}     # channel identifiers -> label objects
+
+
+def _same(a, b):
+    if a is b:
+        return True
+    if type(a) is not type(b):
+        return False
+    if isinstance(a, (tuple, list)):
+        return len(a) == len(b) and all(_same(u, v) for u, v in zip(a, b))
+    if isinstance(a, dict):
+        return list(a.keys()) == list(b.keys()) and all(_same(a[k], b[k]) for k in a)
+    return a == b
+
+
+def _md_obj(k, rich):
+    return {'id': k, 'tag': MTAGS[k % 8], 'n': [k, str(k), (k,)], 'z': 0} if rich else {'id': k}
+
+
 def _mk(b):
     from psiaudio.pipeline import PipelineData
     d = np.array(b['vals'], dtype=float).reshape(b['shape'])
+    if b.get('dt'):
+        d = d.astype(b['dt'])
     if not b['ann']:
         return d
     nd = len(b['shape'])
-    ch = b['ch']
-    md = {'id': b['md']} if nd < 3 else [{'id': k} for k in b['md']]
-    return PipelineData(d, fs=b['fs'][0] / b['fs'][1], s0=b['s0'], channel=ch, metadata=md)
+    ch = [LABS[c] for c in b['ch']] if isinstance(b['ch'], list) else LABS[b['ch']]
+    rich = b.get('rich', False)
+    md = _md_obj(b['md'], rich) if nd < 3 else [_md_obj(k, rich) for k in b['md']]
+    fs = b['fs'][0] / b['fs'][1]
+    if b.get('fsint') and b['fs'][1] == 1:
+        fs = int(b['fs'][0])
+    return PipelineData(d, fs=fs, s0=(np.int64(b['s0']) if b.get('s0np') else b['s0']), channel=ch, metadata=md)
 
 
-def _obs_fwd(r):
+def _lab_id(c):
+    for k, v in LABS.items():
+        if _same(c, v):
+            return k
+    return -999
+
+
+def _obs_fwd(r, rich=False):
     from psiaudio.pipeline import PipelineData
+    if not isinstance(r, np.ndarray):
+        raise TypeError(f'valid_target received {type(r).__name__}')
     if not isinstance(r, PipelineData):
-        return {'ann': False, 'shape': [int(v) for v in r.shape], 'vals': [int(v) for v in np.asarray(r).ravel()]}
+        return {'ann': False, 'shape': [int(v) for v in r.shape], 'vals': [int(v) for v in np.asarray(r).ravel()],
+                'dtype': str(r.dtype)}
     fs = Fraction(float(r.fs))
     ch = r.channel
-    ch = [(-1 if c is None else int(c)) for c in ch] if isinstance(ch, list) else (-1 if ch is None else int(ch))
+    ch = [_lab_id(c) for c in ch] if isinstance(ch, list) else _lab_id(ch)
     md = r.metadata
     if not isinstance(md, list):
         raise TypeError(f'forwarded metadata is not a list: {md!r}')
+    ids = []
+    for m in md:
+        core = {k: v for k, v in m.items() if k != 'reject_threshold'} if isinstance(m, dict) else None
+        ok = core is not None and type(core.get('id')) is int and _same(core, _md_obj(core['id'], rich))
+        ids.append(core['id'] if ok else -999)
     return {'ann': True, 'shape': [int(v) for v in r.shape], 'vals': [int(v) for v in np.asarray(r).ravel()],
-            's0': int(r.s0), 'fs': [fs.numerator, fs.denominator], 'ch': ch, 'md': [int(m['id']) for m in md],
-            'rth': [m.get('reject_threshold') for m in md]}
+            's0': int(r.s0), 'fs': [fs.numerator, fs.denominator], 'ch': ch, 'md': ids, 'dtype': str(r.dtype),
+            'rth': [m.get('reject_threshold') if isinstance(m, dict) else None for m in md]}
+
+
+def _thr_value(v, kind):
+    if kind == 'int' and float(v).is_integer():
+        return int(v)
+    if kind == 'np':
+        return np.float64(v)
+    if kind == 'npi' and float(v).is_integer():
+        return np.int64(v)
+    if kind == 'f32':
+        return np.float32(v)
+    return float(v)
 
 
 def impl(case):
     from psiaudio.pipeline import reject_epochs
-    got = {'fwd': None, 'status': None}
+    got = {'fwd': None, 'status': None, 'obj': None}
+    rich = [False]
 
     def target(d):
         if got['fwd'] is not None:
             raise RuntimeError('valid_target called twice for one batch')
-        got['fwd'] = _obs_fwd(d)
+        got['fwd'] = _obs_fwd(d, rich[0])
+        got['obj'] = d
 
     def status(mask):
         if got['status'] is not None:
@@ -65,28 +123,59 @@ def impl(case):
         got['status'] = [bool(b) for b in np.asarray(mask).ravel()]
         got['status_ndim'] = int(np.asarray(mask).ndim)
 
+    class Sink:
+        def __call__(self, d):
+            target(d)
+
+    def gen_sink():
+        while True:
+            d = (yield)
+            target(d)
+    tk = case.get('target', 'func')
+    if tk == 'send':                     # the next pipeline stage is a coroutine: its bound send method
+        g = gen_sink()
+        next(g)
+        tgt = g.send
+    elif tk == 'object':
+        tgt = Sink()
+    else:
+        tgt = target
     calls = []
+    kind = case.get('thk', 'float')
     if case['thr'][0] == 'c':
-        th = float(case['thr'][1])
+        th = _thr_value(case['thr'][1], kind)
     else:
         seq = list(case['thr'][1])
 
         def th():
-            v = float(seq[len(calls)])
+            v = _thr_value(seq[len(calls)], kind)
             calls.append(v)
             return v
-    cr = reject_epochs(th, MODES[case['mode']], status, target)
+    use_status = case.get('status', True)
+    cr = reject_epochs(th, MODES[case['mode']], status if use_status else None, tgt)
     outs = []
     for b in case['batches']:
-        got.update(fwd=None, status=None, status_ndim=None)
+        got.update(fwd=None, status=None, status_ndim=None, obj=None)
+        rich[0] = b.get('rich', False)
         data = _mk(b)
         try:
             cr.send(data)
-            if got['status'] is None:
-                raise RuntimeError('status_cb was not called')
-            if got['status_ndim'] != 1:
-                raise RuntimeError('status mask is not 1-D')
-            outs.append({'fwd': got['fwd'], 'status': got['status']})
+            if use_status:
+                if got['status'] is None:
+                    raise RuntimeError('status_cb was not called')
+                if got['status_ndim'] != 1:
+                    raise RuntimeError('status mask is not 1-D')
+            o = {'fwd': got['fwd'], 'status': got['status']}
+            if got['obj'] is not None:
+                # the caller reuses its batch array (and metadata list) after the call: what was forwarded must not change
+                if data.flags.writeable and data.size:
+                    data[...] = 77
+                if b['ann'] and isinstance(data.metadata, list):
+                    data.metadata.append({'scribble': 1})
+                again = _obs_fwd(got['obj'], rich[0])
+                if again != got['fwd']:
+                    o['alias'] = 'the forwarded epochs changed when the caller overwrote its batch after the call'
+            outs.append(o)
         except StopIteration:
             outs.append({'stop': True})
         except (IndexError, ValueError, NotImplementedError, TypeError, KeyError, UnboundLocalError) as e:
@@ -99,36 +188,46 @@ def _lab(l):
     return f'(LMany {zlist(l)})' if isinstance(l, list) else f'(LOne {zlit(l)})'
 
 
-def _batch(b):
+def _scale(case):
+    ths = [case['thr'][1]] if case['thr'][0] == 'c' else list(case['thr'][1])
+    return 1 if all(float(t).is_integer() for t in ths) else 2
+
+
+def _batch(b, sc=1):
+    vals = [v * sc for v in b['vals']]
     if not b['ann']:
-        return f'(mk_plain {zlist(b["shape"])} {zlist(b["vals"])})'
+        return f'(mk_plain {zlist(b["shape"])} {zlist(vals)})'
     md = _lab(b['md'])
-    return (f'(mk_ann {zlist(b["shape"])} {zlist(b["vals"])} {zlit(b["s0"])} {zlit(b["fs"][0])} {zlit(b["fs"][1])} '
+    return (f'(mk_ann {zlist(b["shape"])} {zlist(vals)} {zlit(b["s0"])} {zlit(b["fs"][0])} {zlit(b["fs"][1])} '
             f'{_lab(b["ch"])} {md})')
 
 
-def _fwd(f):
+def _fwd(f, sc=1):
     if f is None:
         return 'None'
+    vals = [v * sc for v in f['vals']]
     if not f['ann']:
-        return f'(Some (fwd_plain {zlist(f["shape"])} {zlist(f["vals"])}))'
-    return (f'(Some (fwd_ann {zlist(f["shape"])} {zlist(f["vals"])} {zlit(f["s0"])} {zlit(f["fs"][0])} {zlit(f["fs"][1])} '
+        return f'(Some (fwd_plain {zlist(f["shape"])} {zlist(vals)}))'
+    return (f'(Some (fwd_ann {zlist(f["shape"])} {zlist(vals)} {zlit(f["s0"])} {zlit(f["fs"][0])} {zlit(f["fs"][1])} '
             f'{_lab(f["ch"])} (LMany {zlist(f["md"])})))')
 
 
-def _out(o):
+def _out(o, sc=1):
     if 'stop' in o:
         return 'OStop'
     if 'exc' in o:
         return f'(OErr {EXC[o["exc"]]})'
-    return f'(OOut {_fwd(o["fwd"])} {blist(o["status"])})'
+    return f'(OOut {_fwd(o["fwd"], sc)} {blist(o["status"] or [])})'
 
 
 def term(case, res):
     m = 'MAbs' if case['mode'] == 'abs' else 'MPtp'
-    t = f'(TConst {zlit(case["thr"][1])})' if case['thr'][0] == 'c' else f'(TCall {zlist(case["thr"][1])})'
-    return (f'check_run {m} {t} {listlit([_batch(b) for b in case["batches"]])} '
-            f'{listlit([_out(o) for o in res["outs"]])}')
+    sc = _scale(case)
+    z = lambda t: zlit(int(round(float(t) * sc)))
+    t = f'(TConst {z(case["thr"][1])})' if case['thr'][0] == 'c' else f'(TCall {listlit([z(v) for v in case["thr"][1]])})'
+    chk = 'check_run' if case.get('status', True) else 'check_run_fwd'
+    return (f'{chk} {m} {t} {listlit([_batch(b, sc) for b in case["batches"]])} '
+            f'{listlit([_out(o, sc) for o in res["outs"]])}')
 
 
 # --------------------------------------------------------------------------- the property as an oracle
@@ -157,7 +256,12 @@ def oracle(case, res):
         E, _, T = b['shape']
         eps = [b['vals'][e * T:(e + 1) * T] for e in range(E)]
         want_mask = [_crit(case['mode'], ep) < th for ep in eps]
-        if o['status'] != want_mask:
+        if o.get('alias'):
+            return f'batch {i}: {o["alias"]}'
+        if not case.get('status', True):
+            if o['status'] is not None:
+                return f'batch {i}: a status callback ran although status_cb is None'
+        elif o['status'] != want_mask:
             return (f'batch {i}: status callback got {o["status"]}, accept mask is {want_mask} '
                     f'(criterion values {[_crit(case["mode"], ep) for ep in eps]}, threshold {th})')
         keep = [e for e in range(E) if want_mask[e]]
@@ -174,6 +278,8 @@ def oracle(case, res):
                     f'(criterion {[_crit(case["mode"], ep) for ep in eps]}, threshold {th})')
         if f['ann'] != b['ann']:
             return f'batch {i}: forwarded array kind changed'
+        if f['dtype'] != b.get('dt', 'float64'):
+            return f'batch {i}: forwarded dtype {f["dtype"]} for a batch of dtype {b.get("dt", "float64")}'
         if b['ann']:
             want_md = [b['md'][e] for e in keep]
             if f['md'] != want_md:
@@ -182,11 +288,13 @@ def oracle(case, res):
                 return f'batch {i}: reject_threshold entries {f["rth"]} differ from the threshold in force {th}'
             if f['s0'] != b['s0'] or f['fs'] != b['fs'] or f['ch'] != b['ch']:
                 return f'batch {i}: s0/fs/channel changed: {f["s0"]}, {f["fs"]}, {f["ch"]}'
+    if case['thr'][0] == 'f' and res['calls'] != k:
+        return f'the threshold callable was read {res["calls"]} times for {k} accepted batches (once per batch is claimed)'
     return None
 
 
 def nontrivial(case, res):
-    return any(('exc' in o) or ('status' in o and not all(o['status'])) for o in res['outs'])
+    return any(('exc' in o) or ('status' in o and not all(o['status'] or [False])) for o in res['outs'])
 
 
 # --------------------------------------------------------------------------- generators
@@ -217,8 +325,8 @@ def _batch_from(mode, crits, T, rng, ann, mdbase=0, variant=0):
         eps.append(ep)
     b = {'ann': ann, 'shape': [len(crits), 1, T], 'vals': [v for ep in eps for v in ep]}
     if ann:
-        b.update(s0=rng.choice([0, -5, 12]), fs=rng.choice([[36000, 1], [3515625, 2]]), ch=[rng.choice([70, -1])],
-                 md=[100 + mdbase + q for q in range(len(crits))])
+        b.update(s0=rng.choice([0, -5, 12]), fs=rng.choice([[36000, 1], [3515625, 2]]), ch=[rng.choice([70, -1, 71, 72, 73, 74, 75])],
+                 md=[100 + mdbase + q for q in range(len(crits))], rich=bool(rng.random() < 0.5))
     return b
 
 
@@ -286,11 +394,59 @@ def cases(tier, rng):
             b.update(s0=3, fs=[45, 1], ch=[70], md=[200 + q for q in range(E)])
         yield {'mode': mode, 'thr': ['c', t], 'batches': [b]}
     # refused input, alone and inside a sequence (the coroutine ends with the exception)
+    yield from _audit_cases(tier, rng)
     good = _batch_from('abs', [9, 11], 3, rng, True)
     for bad in _bad_batches(rng):
         for mode in ('abs', 'ptp'):
             yield {'mode': mode, 'thr': ['c', 10], 'batches': [bad]}
         yield {'mode': 'abs', 'thr': ['f', [10, 10, 10]], 'batches': [good, bad, good]}
+
+
+def _audit_cases(tier, rng):
+    """coverage audit: argument kinds and options of reject_epochs that the pattern generators above do not vary"""
+    quick = tier == 'quick'
+    n = 0
+    for mode in ('abs', 'ptp'):
+        for th in (10, 10.5, 0, 0.5, -2, 1e9):
+            near = [th - 1, th, th + 1] if float(th).is_integer() else [th - 0.5, th + 0.5, th - 1.5]
+            near = [int(max(c, 0)) for c in near]
+            for opts in ({'status': False}, {'target': 'send'}, {'target': 'object'}, {'thk': 'int'}, {'thk': 'np'}, {'thk': 'npi'},
+                         {'thk': 'f32'}, {'dt': 'int64'}, {'dt': 'int16'}, {'dt': 'float32'}, {'dt': 'int32', 'status': False, 'target': 'send'},
+                         {'rich': True}, {'rich': True, 'chid': 71}, {'chid': 72}, {'chid': 73}, {'chid': 74}, {'fsint': True, 's0np': True},
+                         {'zeros': True}, {'zeros': True, 'dt': 'int16'}, {'callable': True}, {'callable': True, 'thk': 'npi', 'status': False}):
+                if th == 1e9 and (opts.get('dt') in ('int16', 'float32') or opts.get('thk') == 'f32'):   # not exactly representable
+                    continue
+                for ann in (False, True):
+                    n += 1
+                    if quick and n % 2 and not (opts.get('status') is False or 'target' in opts):
+                        continue
+                    bs = []
+                    for q in range(2):
+                        crits = [near[(q + j) % 3] for j in range(3)] if not opts.get('zeros') else [0, 0]
+                        b = _batch_from(mode, crits, 3, rng, ann, mdbase=10 * q, variant=n)
+                        if opts.get('zeros'):
+                            b['vals'] = [0] * len(b['vals'])
+                        if th == 1e9:
+                            b['vals'] = [v + (10 ** 9 - 10 if j % 3 == 0 else 0) for j, v in enumerate(b['vals'])] if mode == 'abs' else b['vals']
+                        for k_ in ('dt', 'rich', 'fsint', 's0np'):
+                            if k_ in opts:
+                                b[k_] = opts[k_]
+                        if ann and 'chid' in opts:
+                            b['ch'] = [opts['chid']]
+                        bs.append(b)
+                    c = {'mode': mode, 'thr': (['f', [th, th]] if opts.get('callable') else ['c', th]), 'batches': bs}
+                    for k_ in ('status', 'target', 'thk'):
+                        if k_ in opts:
+                            c[k_] = opts[k_]
+                    yield c
+    # empty batches, a batch with no channel, options combined with refused input
+    for ann in (False, True):
+        for shape in ([0, 1, 3], [2, 0, 3], [0, 0, 3], [0, 2, 3]):
+            b = {'ann': ann, 'shape': shape, 'vals': []}
+            if ann:
+                b.update(s0=0, fs=[36000, 1], ch=[70] * shape[1], md=[100 + q for q in range(shape[0])])
+            for opts in ({}, {'status': False}, {'target': 'send'}):
+                yield dict({'mode': 'abs', 'thr': ['c', 5], 'batches': [b, _batch_from('abs', [4, 5, 6], 2, rng, ann)]}, **opts)
 
 
 def distribution(cases_, results):
